@@ -4,6 +4,7 @@
 import BumpverVerif.Driver.Common
 import BumpverVerif.Driver.V2
 import BumpverVerif.Model.Rewrite
+import BumpverVerif.Model.Diff
 open Lean
 namespace BV.Drv
 
@@ -49,6 +50,32 @@ def handleRw : Handler := fun op j =>
       | .ok () => Json.mkObj [("files", filesJson), ("result", Json.str "ok")]
       | .error (.crash .unsupported) => unsupported
       | .error e => Json.mkObj [("files", filesJson), ("result", (rwErrJson e).getObjValD "err")])
+  | "apply_diff" => some do
+    -- {"diff": text printed by `update --dry`, "files": {path: old content}, "seps": {path: separator}}
+    let diff ← getStr j "diff"
+    let files ← getKw j "files"
+    let seps ← getKw j "seps"
+    let oldFiles := files.map (fun (p, c) => (p, splitOn ((lookup p seps).getD ['\n']) c))
+    pure (match applyUnifiedText (splitOn ['\n'] diff) oldFiles with
+      | none => errStr "DiffDoesNotApply"
+      | some nf => Json.mkObj [("files", Json.mkObj (nf.map (fun (p, ls) =>
+          (String.ofList p, jstr (join ((lookup p seps).getD ['\n']) ls)))))])
+  | "dry_files" => some do
+    let oldv ← getVinfo j "old_vinfo"
+    let newv ← getVinfo j "new_vinfo"
+    let files ← getKw j "files"
+    let fps ← match j.getObjVal? "file_patterns" with
+      | .ok (Json.arr a) => a.toList.mapM (fun x => match x with
+          | Json.arr #[Json.str path, pats] => do
+            let ps ← getCPats pats
+            pure (path.toList, ps)
+          | _ => .error "bad file_patterns entry")
+      | _ => .error "missing file_patterns"
+    pure (match diffFiles files oldv newv fps with
+      | .error (.crash .unsupported) => unsupported
+      | .error e => Json.mkObj [("result", (rwErrJson e).getObjValD "err")]
+      | .ok rs => Json.mkObj [("result", Json.str "ok"), ("files", Json.mkObj (rs.map (fun (p, _, nl) =>
+          (String.ofList p, jstr (join (detectLineSep ((lookup p files).getD [])) nl)))))])
   | "detect_sep" => some do
     let content ← getStr j "content"
     pure (okStr (detectLineSep content))
